@@ -5,6 +5,11 @@
 //   rt   TaggedRT (all members + runtime provides_*), by reference
 //   fun  alpaqa::FunctionalProblem (std::function members; mask bits 7..10 only)
 //   dl   alpaqa::dl::DLProblem loading harness/c04_plugin.cpp ($C04_PLUGIN)
+//   cter / ctedl  the type-erased counting wrapper: TypeErasedProblem over
+//        problem_with_counters_ref(TypeErasedProblem over the rt problem / over the dl plug-in)
+// Work vectors handed to the interface live in buffers with guard cells behind them; every provider
+// checks their size and overwrites them (c04_kernels.hpp `work_vec`); a damaged guard cell is reported
+// as a `WORKERR:overrun:…` token in the call log.
 //   cas  alpaqa::CasADiProblem loading /repo/test/outer/rosenbrock_functions_test.c ($C04_CASADI),
 //        harness/c04_casadi_poly.c ($C04_CASADI_POLY: n = 3, m = 2; $C04_CASADI_POLY0: n = 3, m = 0)
 // One op per line, one output line per op: `<values> ; <call log>`.
@@ -48,7 +53,32 @@ static vec nanvec(long n) { return vec::Constant(n, std::numeric_limits<double>:
 struct Holder {
     std::unique_ptr<TaggedRT> rt;
     std::unique_ptr<alpaqa::FunctionalProblem<config_t>> fun;
+    std::unique_ptr<TEP> inner; // cter / ctedl: the type-erased problem the counting wrapper refers to
     std::unique_ptr<TEP> te;
+};
+
+/// work vectors of n resp. m elements followed by guard cells
+struct Work {
+    static constexpr long PAD     = 8;
+    static constexpr double GUARD = 1.5e-77;
+    long n = 0, m = 0;
+    vec sn, sm;
+    Work() = default;
+    Work(long n, long m) : n{n}, m{m}, sn{nanvec(n + PAD)}, sm{nanvec(m + PAD)} {
+        sn.tail(PAD).setConstant(GUARD);
+        sm.tail(PAD).setConstant(GUARD);
+    }
+    auto wn() { return sn.head(n); }
+    auto wm() { return sm.head(m); }
+    /// guard cells intact?  (reported and repaired)
+    void check(std::vector<std::string> &log) {
+        if ((sn.tail(PAD).array() != GUARD).any())
+            log.push_back("WORKERR:overrun:work_n");
+        if ((sm.tail(PAD).array() != GUARD).any())
+            log.push_back("WORKERR:overrun:work_m");
+        sn.tail(PAD).setConstant(GUARD);
+        sm.tail(PAD).setConstant(GUARD);
+    }
 };
 
 static Holder build(const std::string &variant, const Data *d, const Box &D, Registry &reg) {
@@ -95,7 +125,12 @@ static Holder build(const std::string &variant, const Data *d, const Box &D, Reg
         h.te = std::make_unique<TEP>(TEP::make<alpaqa::dl::DLProblem>(so, "c04_register", arg));
     }
 #endif
-    else
+    else if (variant == "cter" || variant == "ctedl") {
+        Holder in  = build(variant == "cter" ? "rt" : "dl", d, D, reg);
+        h.rt       = std::move(in.rt);
+        h.inner    = std::move(in.te);
+        h.te       = std::make_unique<TEP>(alpaqa::problem_with_counters_ref(std::as_const(*h.inner)));
+    } else
         throw std::runtime_error("unknown variant");
     return h;
 }
@@ -114,7 +149,8 @@ static std::string provides_bits(const TEP &te) {
 /// the kept object of a call sequence (`sq0` / `sqn`)
 struct Seq {
     Data d;
-    vec x, gf, g, J, Hf, HG, lb, ub, wn, wm;
+    vec x, gf, g, J, Hf, HG, lb, ub;
+    Work W;
     Holder h;
     std::string variant;
     unsigned mask = 0;
@@ -282,7 +318,7 @@ static std::string casadi_all(const std::string &mod, bool fresh, const vec &x, 
 
 /// one call of interface function `fn` on `te`; outputs are NaN-prefilled, the work vectors are the caller's
 static std::string eval_fn(const TEP &te, const std::string &fn, long n, long m, const vec &x, const vec &y,
-                           const vec &S, const vec &g, real_t scale, const vec &v, vec &wn, vec &wm) {
+                           const vec &S, const vec &g, real_t scale, const vec &v, Work &W) {
     std::string out;
     if (fn == "psi") {
         vec yh = nanvec(m);
@@ -290,15 +326,15 @@ static std::string eval_fn(const TEP &te, const std::string &fn, long n, long m,
         out = vp::f2h(p) + " " + vp::fmtv(yh);
     } else if (fn == "grad_psi") {
         vec o = nanvec(n);
-        te.eval_grad_ψ(x, y, S, o, wn, wm);
+        te.eval_grad_ψ(x, y, S, o, W.wn(), W.wm());
         out = vp::fmtv(o);
     } else if (fn == "psi_grad_psi") {
         vec o = nanvec(n);
-        real_t p = te.eval_ψ_grad_ψ(x, y, S, o, wn, wm);
+        real_t p = te.eval_ψ_grad_ψ(x, y, S, o, W.wn(), W.wm());
         out = vp::f2h(p) + " " + vp::fmtv(o);
     } else if (fn == "grad_L") {
         vec o = nanvec(n);
-        te.eval_grad_L(x, y, o, wn);
+        te.eval_grad_L(x, y, o, W.wn());
         out = vp::fmtv(o);
     } else if (fn == "f_g") {
         vec o = nanvec(m);
@@ -376,8 +412,9 @@ int main() {
                     Holder h = build(variant, &d, D, reg);
                     const TEP &te = *h.te;
                     log.clear();
-                    vec wn = nanvec(n), wm = nanvec(m);
-                    std::string out = eval_fn(te, fn, n, m, x, y, S, g, scale, v, wn, wm);
+                    Work W{n, m};
+                    std::string out = eval_fn(te, fn, n, m, x, y, S, g, scale, v, W);
+                    W.check(log);
                     std::cout << out << " ; " << join(log) << '\n';
                 } else {
                     Seq &q = seq;
@@ -385,7 +422,7 @@ int main() {
                         q.h = Holder{}; // the previous sequence's object goes first (it points into q)
                         q.variant = variant; q.mask = mask; q.n = n; q.m = m;
                         q.x = x; q.gf = gf; q.g = g; q.J = J; q.Hf = Hf; q.HG = HG; q.lb = lb; q.ub = ub;
-                        q.wn = nanvec(n); q.wm = nanvec(m);
+                        q.W = Work{n, m};
                         q.point(f0, mask | sflag);
                         q.h     = build(variant, &q.d, Box::from_lower_upper(lb, ub), reg);
                         q.valid = true;
@@ -405,7 +442,8 @@ int main() {
                     }
                     q.log.clear();
                     cur_log = &q.log;
-                    std::string out = eval_fn(*q.h.te, fn, n, m, x, y, S, g, scale, v, q.wn, q.wm);
+                    std::string out = eval_fn(*q.h.te, fn, n, m, x, y, S, g, scale, v, q.W);
+                    q.W.check(q.log);
                     std::cout << out << " ; " << join(q.log) << '\n';
                 }
             }
